@@ -17,6 +17,8 @@
 From BCL Require Import Model.Api Model.Compile Spec.Syntax Spec.AstSem Proofs.ParserInvProofs Proofs.T2Expr Proofs.T2Proofs Proofs.T1Expr Proofs.T1Proofs Proofs.Language.
 Open Scope N_scope.
 
+From BCL Require Import Proofs.VerifyFrag Proofs.CompileVerifies Proofs.Limits.
+
 (* parser ; VM = grammar ; big-step semantics over names, for every source text *)
 Theorem C02_language : forall name src,
   let pr := parse_whole name src in
@@ -69,6 +71,38 @@ Theorem C02_expression_simulation :
   forall g : prog, nlen (g_consts g) < 2 ^ 64 -> forall e : expr, SimP g e.
 Proof. first [exact T1Expr.expr_sim | apply T1Expr.expr_sim]. Qed.
 Print Assumptions C02_expression_simulation.
+
+(* exact agreement (no limit escape) for programs within 1024 slots and 16 nested blocks *)
+Theorem C02_language_within_limits : forall name src,
+  let pr := parse_whole name src in
+  let ts := fst (lex [src]) in
+  pr_ok pr = true -> pr_oof pr = false -> pr_panic pr = false ->
+  ps_constants (pr_stats pr) < 2^64 ->
+  exists p, ast_program ts = Some p /\
+    (within_limits p ->
+     let rr := execute (pr_prog pr) false false in
+     res_match (fst (run_program p)) (rr_res rr) /\ obs_match (snd (run_program p)) rr).
+Proof. first [exact Limits.bcl_language_within_limits | apply Limits.bcl_language_within_limits]. Qed.
+Print Assumptions C02_language_within_limits.
+
+Theorem C02_tree_semantics_within_limits : forall (p : list stmt) (name : bytes) (pos lfs : list N),
+  let cs := compile_program p in
+  hadError cs = false -> Forall binds_ok p -> nconsts cs < 2^64 ->
+  within_limits p ->
+  let g := {| g_name := name; g_code := rev (code cs); g_consts := rev (consts cs); g_pos := pos; g_lfs := lfs |} in
+  let rr := execute g false false in
+  let sr := fst (run_program p) in
+  let en := snd (run_program p) in
+  ~ limit_res (rr_res rr) /\
+  ((exists u, sr = ROk u) <-> rr_res rr = VOk) /\
+  (sr = RErr XExcluded <-> rr_res rr = VPanic PExcluded) /\
+  sr <> RErr XStatic /\
+  (forall e, sr = RErr e -> e <> XExcluded -> exists q, rr_res rr = VErr q (msg_of e)) /\
+  (forall q msg, rr_res rr = VErr q msg -> exists e, sr = RErr e /\ msg = msg_of e) /\
+  print_lines (rr_out rr) = rev (output en) /\ rr_blocks rr = rev (results en) /\
+  binding_match (binding_ en) (rr_binding rr) /\ nlen (rr_warn rr) = warnings en.
+Proof. first [exact Limits.T1_program_iff_within_limits | apply Limits.T1_program_iff_within_limits]. Qed.
+Print Assumptions C02_tree_semantics_within_limits.
 
 (* non-vacuity: shadowing, own-initialiser, fields versus variables, embedded assignment *)
 Example C02_example :
